@@ -79,6 +79,20 @@ func (o *objectGoArrayReflect) equal(other objectImpl) bool {
 	return false
 }
 
+func (o *objectGoArrayReflect) setReflectValue(v reflect.Value) {
+	o.objectGoReflect.setReflectValue(v)
+	// references to elements handed out earlier are part of the value that moves
+	for i, w := range o.valueCache {
+		if w != nil {
+			if i < v.Len() {
+				w.setReflectValue(v.Index(i))
+			} else {
+				o.valueCache[i] = nil
+			}
+		}
+	}
+}
+
 func (o *objectGoArrayReflect) updateLen() {
 	o.lengthProp.value = intToValue(int64(o.fieldsValue.Len()))
 }
